@@ -1617,6 +1617,7 @@ FORMULAS = {
     'C07': ['ark_elligator', 'min_elligator', 'min_add', 'min_hash_to_curve', 'ark_hash_to_curve', 'min_encode_to_curve', 'ark_encode_to_curve'],
     'C08': ['ark_eq', 'min_eq', 'ark_affine_eq', 'ark_is_identity', 'min_is_identity'],
     'C10': ['opforms'],
+    'C11': ['opforms'],
     'C09': ['ark_sqrt_ratio_zeta', 'min_sqrt_ratio_zeta', 'min_pow_le_limbs_step', 'min_our_sqrt'],
     'C13': ['r1cs_compress', 'r1cs_decompress', 'r1cs_elligator', 'r1cs_is_eq', 'r1cs_isqrt', 'r1cs_is_nonnegative', 'r1cs_is_negative', 'r1cs_abs', 'opforms'],
     'C14': ['r1cs_compress', 'r1cs_decompress', 'r1cs_elligator', 'r1cs_isqrt', 'r1cs_is_nonnegative', 'r1cs_is_negative', 'r1cs_abs'],
